@@ -123,6 +123,52 @@ fn main() {
     println("end");
 }
 `},
+	{"loop-control-inside-try-catch", `fn main() {
+    let i = 0;
+    loop {
+        try {
+            if i >= 3 { throw("limit reached"); }
+            println(i);
+        } catch e {
+            println(e.message);
+            break;
+        }
+        i += 1;
+        println("next");
+    }
+    for k in 0..4 {
+        try {
+            if k == 1 { continue; }
+            println("k", k);
+        } catch e {
+            println("never");
+        }
+        println("after", k);
+    }
+    let n = 0;
+    while n < 3 {
+        n += 1;
+        try { if n == 2 { break; } } catch e { println("never"); }
+        println("n", n);
+    }
+    println("end");
+}
+`},
+	{"nested-loops-and-blocks", `fn main() {
+    let total = 0;
+    for a in 0..3 {
+        for b in 0..3 {
+            if b == 2 { break; }
+            if a == 1 { continue; }
+            { total += a * 3 + b; }
+        }
+        total += 100;
+    }
+    println(total);
+    let v = { let t = 2; t * 4 };
+    println(v, if v > 5 { "big" } else { "small" });
+}
+`},
 	{"globals-and-bools", `let limit = 10;
 let label = "v";
 fn over(n: int) -> bool { n > limit }
